@@ -165,3 +165,22 @@ func Fail(t Failer, prop, class string, kase interface{}, format string, args ..
 	}
 	t.Fatalf("VERIF-FAIL property=%s class=%s: %s", prop, class, msg)
 }
+
+// InFlight records the case about to be handed to code that may take the whole process
+// down (a panic in a goroutine the harness does not own): the file is what the driver
+// attaches to the replay if the process dies, and is removed by the returned function.
+func InFlight(prop, class string, kase interface{}) (done func()) {
+	dir := os.Getenv("VERIF_REPLAY_DIR")
+	if dir == "" {
+		return func() {}
+	}
+	rec := map[string]interface{}{"property": prop, "class": class, "message": "the process died while this case was in flight", "case": kase, "seq": atomic.AddInt64(&failSeq, 1)}
+	b, err := json.Marshal(rec)
+	if err != nil {
+		return func() {}
+	}
+	_ = os.MkdirAll(dir, 0o755)
+	path := filepath.Join(dir, fmt.Sprintf("%s-%s-%d.json", prop, os.Getenv("VERIF_SHARD"), os.Getpid()))
+	_ = os.WriteFile(path, b, 0o644)
+	return func() { _ = os.Remove(path) }
+}
